@@ -5,6 +5,7 @@ CONSTANTS
   MaxT = 1
   Kinds = {"way"}
   UnannChoices = {0}
+  LocKinds = {"n"}
   BreakAtLate = FALSE
 INIT Init
 NEXT Next
